@@ -316,10 +316,11 @@ func (u *upstream) removeClientLocked(addr string) {
 }
 
 func (u *upstream) resetAllClients() {
-	old := u.loadClients()
-
 	// set clients to empty
+	// NOTE: take the snapshot with the mutex held, a client which is created
+	// in between would be neither stopped here nor found in the table later.
 	u.clientsMu.Lock()
+	old := u.loadClients()
 	u.updateClients(make(map[string]*client))
 	u.clientsMu.Unlock()
 
